@@ -78,6 +78,46 @@ inline void check_unknown(
                  "omitted=" + X + " update said " +
                      (b.ok ? std::string("ok") : err_text(b.err))});
     }
+    // (a') x is listed only in a later record of a class that an earlier
+    // record registered with its other bases
+    for (int dcls = 0; dcls < r.po.n; ++dcls) {
+        if (!rx::lt(r.po, dcls, x) || (r.po.up[dcls] & ~(1 << x)) == 0)
+            continue;
+        rx::Registry rb;
+        rb.po = r.po;
+        rb.nm = r.nm;
+        rb.meths[0] = r.meths[0];
+        for (int i = 0; i < r.nr; ++i) {
+            const rx::Rec& rec = r.recs[i];
+            if (rec.cls == x)
+                continue;
+            if (rec.cls != dcls) {
+                rb.recs[rb.nr++] = rec;
+                continue;
+            }
+            rx::Rec first = rec, second = rec;
+            first.nb = second.nb = 0;
+            for (int b = 0; b < rec.nb; ++b)
+                if (rec.bases[b] == x)
+                    second.bases[second.nb++] = rec.bases[b];
+                else
+                    first.bases[first.nb++] = rec.bases[b];
+            rb.recs[rb.nr++] = first;
+            rb.recs[rb.nr++] = second;
+        }
+        if (rb.nr > rx::MAXR - 1)
+            continue;
+        hx::Built b;
+        run::note("base list of a later record");
+        hx::build(rb, b);
+        COUNT("updates", 1);
+        COUNT("omitted_in_base_list", 1);
+        if (b.ok || !is_unknown_for(b.err, x))
+            out.push_back(
+                {"unknown_base_in_later_record_not_reported",
+                 "omitted=" + X + " registry=" + rx::to_text(rb) + " update said " +
+                     (b.ok ? std::string("ok") : err_text(b.err))});
+    }
     rx::Registry rs = r;
     strip_class(rs, x);
     bool in_vp = false, in_def = false;
@@ -152,22 +192,28 @@ inline void check_unknown(
         hx::Built bv;
         hx::build(rv, bv);
         COUNT("updates", 1);
-        if (bv.ok) {
+        static std::uintptr_t stale_vtbl[16];
+        for (int stale = 0; bv.ok && stale <= 1; ++stale) {
             hx::g_err.reset();
             int before = hx::g_bodies_run;
             bool threw = false;
             try {
-                *hx::g_static_vptr[x] = nullptr; // what a never-registered class has
+                // stale == 0: what a never-registered class has;
+                // stale == 1: what a class whose registration was withdrawn
+                // before the last update has (update never resets it)
+                *hx::g_static_vptr[x] = stale ? stale_vtbl : nullptr;
                 g_exact[x](hx::g_objs[x], 0);
             } catch (hx::Thrown&) {
                 threw = true;
             }
+            *hx::g_static_vptr[x] = nullptr;
             COUNT("calls", 1);
             COUNT("unknown_dynamic_calls", 1);
             if (!threw || hx::g_bodies_run != before ||
                 !is_unknown_for(hx::g_err, x))
                 out.push_back(
-                    {"unknown_exact_virtual_ptr_not_reported",
+                    {stale ? "withdrawn_exact_virtual_ptr_not_reported"
+                           : "unknown_exact_virtual_ptr_not_reported",
                      "omitted=" + X + " threw=" + std::to_string(threw) +
                          " error=" + err_text(hx::g_err)});
         }
